@@ -3,7 +3,7 @@ from . import common as C
 
 MANIFEST = dict(
    technique="Lean 4 proof of one composition law per container (slice, array, tuple, map, record, set, object, struct, union, xor, intersection, discriminated union, lazy) over ABSTRACT member schemas (every member environment, so any nesting depth and nil-accepting members), for today's code and the code after the pending patches; differential correspondence of the container model against the real types on generated nestings whose members are of every kind a constructor type-checks (built-in schemas, transforms, pipes, refined / overwriting / coercing schemas, foreign types offering only Parse, exactly core.ZodSchema or exactly core.ZodType[any], also wrapped around generated composites), each container judged against its own members' recorded answers (ParseAny, else Parse); discriminated unions over their option LIST (literal / enum / int-literal / free-form / field-less options, ill-formed lists), the index built by the model and compared with the constructor's; container-level checks of every kind (size, Refine, Overwrite) incl. engine.validatePointer's overwrite pre-pass; Object.Required; go/ast structure fingerprints of the 58 transcribed Go functions",
-   text="Theorems c02_slice/array/tuple/map/record/set/object/struct/union/xor/du: the model of each container validator (transcribed from types/*.go, including the engine nil path of internal/engine) accepts iff shape, size checks, unknown-key policy and the members' own verdicts say so, for all member environments. c02_inter_partial and c02_lazy_partial exclude, with witness theorems (c02_inter_full_false, c02_lazy_full_false, c02_lazy_nil_false, c02_union_full_false, c02_nilslice_false, c02_unasked_member_false, c02_array_rest_dropped), the regions where today's code breaks the law; c02_slice_seen / c02_callable_partial state the law over what a container SEES of its members (Cont.seen: a member the code has no entry point on is never asked). The hand-written model is tied to /repo by generated nestings (depth <= 4 quick, <= 6 thorough) with valid instances, every single-location corruption, wrong-shape containers and nil-likes; the harness records each member's own ParseAny answer on every part of the input and Lean evaluates model and law on that table. Round 4: c02_du_law (Proofs/C02Du.lean) proves the discriminated-union law for EVERY input over the option list as written: Cont.buildDiscMap transcribes buildDiscriminatorMap (buildDiscMap_some: the index is the declaration list iff no value is declared twice and some value is declared), parseDUDecl is lookup THEN fallback, Spec.acceptsDU is stated without an index; Proofs/C02Checks.lean: Cont.runOw (Parse with Refine / Overwrite checks: validatePointer's overwrite pre-pass, checks applied to an accepted nil) equals run after /repo 49e6e91 (runOw_eq_run, c02_slice_checks; witness c02_overwrite_skipped_legacy for the code before), Object.Required after /repo 75cf747 (required_fixed_named / required_fixed_other; witnesses required_legacy_all_optional, c02_required_witness). EVERY Cfg switch is pinned in the driver to the behaviour of /repo HEAD (landed fixes: fixed; lazyWrap: false, its finding being open). Round 4c: since /repo 507cd5d the catch-all is consulted in strip mode too (c02_object_catchall is the full statement, the witness is gone); since /repo 05acb23 mergeValues compares the values behind pointer answers (Cont.derefMerge; c02_inter_pointer_sides). The exclusions of c02_inter_partial that remain: a side reports top-level unrecognized keys (open finding, witness c02_inter_full_false), and - part of the right-hand side - the two results must merge (c02_inter_both_partial states 'iff both sides accept' under that hypothesis; no witness theorem: the derived BEq on values inside mergeable does not reduce in proofs). Proofs/C02Spec.lean ties the INDEPENDENT law Spec.accepts (shapeOf: which (location, member, value) triples must be asked + own conditions, written without the model's extractors) to the model of the code BY THEOREM on every input that is not nil-like: c02_slice_spec, c02_array_spec, c02_tuple_spec, c02_map_spec, c02_set_spec, c02_struct_spec, c02_union_spec, c02_xor_spec (run = Spec.accepts), c02_inter_spec_partial, c02_lazy_spec_partial (under the exclusions above), discriminated union: c02_du_law (every input). For OBJECT and RECORD the independent law is related to the model by the run only (c02_object / c02_record state the law over the model's own extractors); nil-like inputs: c02_nil_path + the open findings. NOT claimed: anything about result VALUES - which value an accepting composite returns (element defaults / transforms kept or dropped, unknown keys stripped or kept, the merged value of an intersection) is neither modelled (resv is uninterpreted) nor compared; C02 speaks of verdicts only.",
+   text="Theorems c02_slice/array/tuple/map/record/set/object/struct/union/xor/du: the model of each container validator (transcribed from types/*.go, including the engine nil path of internal/engine) accepts iff shape, size checks, unknown-key policy and the members' own verdicts say so, for all member environments. c02_inter_partial and c02_lazy_partial exclude, with witness theorems (c02_inter_full_false, c02_lazy_full_false, c02_lazy_nil_false, c02_union_full_false, c02_nilslice_false, c02_unasked_member_false, c02_array_rest_dropped), the regions where today's code breaks the law; c02_slice_seen / c02_callable_partial state the law over what a container SEES of its members (Cont.seen: a member the code has no entry point on is never asked). The hand-written model is tied to /repo by generated nestings (depth <= 4 quick, <= 6 thorough) with valid instances, every single-location corruption, wrong-shape containers and nil-likes; the harness records each member's own ParseAny answer on every part of the input and Lean evaluates model and law on that table. Round 4: c02_du_law (Proofs/C02Du.lean) proves the discriminated-union law for EVERY input over the option list as written: Cont.buildDiscMap transcribes buildDiscriminatorMap (buildDiscMap_some: the index is the declaration list iff no value is declared twice and some value is declared), parseDUDecl is lookup THEN fallback, Spec.acceptsDU is stated without an index; Proofs/C02Checks.lean: Cont.runOw (Parse with Refine / Overwrite checks: validatePointer's overwrite pre-pass, checks applied to an accepted nil) equals run after /repo 49e6e91 (runOw_eq_run, c02_slice_checks; witness c02_overwrite_skipped_legacy for the code before), Object.Required after /repo 75cf747 (required_fixed_named / required_fixed_other; witnesses required_legacy_all_optional, c02_required_witness). EVERY Cfg switch is pinned in the driver to the behaviour of /repo HEAD (landed fixes: fixed; lazyWrap: false, its finding being open). Round 4c: since /repo 507cd5d the catch-all is consulted in strip mode too (c02_object_catchall is the full statement, the witness is gone); since /repo 05acb23 mergeValues compares the values behind pointer answers (Cont.derefMerge; c02_inter_pointer_sides). The exclusions of c02_inter_partial that remain: a side reports top-level unrecognized keys (open finding, witness c02_inter_full_false), and - part of the right-hand side - the two results must merge (c02_inter_both_partial states 'iff both sides accept' under that hypothesis; no witness theorem: the derived BEq on values inside mergeable does not reduce in proofs). Proofs/C02Spec.lean ties the INDEPENDENT law Spec.accepts (shapeOf: which (location, member, value) triples must be asked + own conditions, written without the model's extractors) to the model of the code BY THEOREM on every input that is not nil-like: c02_slice_spec, c02_array_spec, c02_tuple_spec, c02_map_spec, c02_record_spec, c02_set_spec, c02_object_spec, c02_struct_spec, c02_union_spec, c02_xor_spec (run = Spec.accepts), c02_inter_spec_partial, c02_lazy_spec_partial (under the exclusions above), discriminated union: c02_du_law (every input); nil-like inputs: c02_nil_path + the open findings. NOT claimed: anything about result VALUES - which value an accepting composite returns (element defaults / transforms kept or dropped, unknown keys stripped or kept, the merged value of an intersection) is neither modelled (resv is uninterpreted) nor compared; C02 speaks of verdicts only.",
    note="Trusted: Lean kernel; axioms propext/Classical.choice/Quot.sound only; the Go harness, token codec and comparer. The container model is a hand transcription validated on generated cases, not for all inputs; Go representations outside the generated set (struct inputs to Object, map inputs to Struct, numeric-string record keys, Default/Prefault/Transform on the container itself, struct Partial, loose records over enum keys) are not modelled. Result values are not compared (verdicts only). Known deviations of today's code are listed in known-findings.txt (nil-like inputs never reach union/xor/intersection/lazy members; typed nil slices/maps rejected; catchall ignored in strip mode; intersection drops one-sided unrecognized_keys; lazy never asks targets whose Parse result type is unsupported; Slice/Array never ask a member that is not a core.ZodSchema (pipes were, until ff6dceb); Map/Set/Record/Struct never ask a member without a method named Parse). Which members a container can call is mirrored in the harness from the type assertions / reflective look-ups of types/*.go (cx.Asked). Record key schemas that rewrite the key are not generated. Refine predicates are constants, Overwrite functions the identity. Open: refinements run on an accepted nil (Map/Record/Array wrappers reject nil whatever the predicate). Not modelled: result values, Pick/Omit/Extend/Merge.",
    design="DESIGN.md §5 C02; notes/C02.md")
 
@@ -26,6 +26,7 @@ THEOREMS = ["Gozod.C02." + t for t in [
     "c02_required_witness",
     # round 4c (audit LOW): the independent law Spec.accepts related to the model of the code by theorem, per container
     "c02_slice_spec", "c02_array_spec", "c02_tuple_spec", "c02_map_spec", "c02_set_spec", "c02_struct_spec",
+    "c02_object_spec", "c02_record_spec", "c02_inter_both_partial", "c02_inter_pointer_sides", "positional_all",
     "c02_union_spec", "c02_xor_spec", "c02_inter_spec_partial", "c02_lazy_spec_partial",
 ]]
 
